@@ -61,11 +61,26 @@ fn main() {
     // panics inside the code under test are caught per case by the modules that expect them;
     // keep the default hook quiet so that expected panics do not flood the log
     let quiet = std::env::var("ZXH_PANIC_LOG").is_err();
-    if quiet {
-        std::panic::set_hook(Box::new(|_| {}));
-    }
+    let default_hook = std::panic::take_hook();
+    std::panic::set_hook(Box::new(move |info| {
+        let msg = if let Some(s) = info.payload().downcast_ref::<&str>() {
+            s.to_string()
+        } else if let Some(s) = info.payload().downcast_ref::<String>() {
+            s.clone()
+        } else {
+            "panic".to_string()
+        };
+        let loc = info.location().map(|l| format!("{}:{}", l.file(), l.line())).unwrap_or_default();
+        if let Ok(mut m) = LAST_PANIC.lock() {
+            *m = format!("{} at {}", msg, loc);
+        }
+        if !quiet {
+            default_hook(info);
+        }
+    }));
     let t0 = std::time::Instant::now();
-    let mut rep = match prop.as_str() {
+    let prop2 = prop.clone();
+    let run_all = || match prop.as_str() {
         "C01" => c01::run(&o),
         "C02" => c02::run(&o),
         "C03" => c03::run(&o),
@@ -89,6 +104,25 @@ fn main() {
         _ => {
             eprintln!("unknown property {}", prop);
             std::process::exit(2);
+        }
+    };
+    // a panic that escapes a property module (in the code under test, reached through an unguarded
+    // call, or in the harness itself) must not lose the run: it becomes a violation of its own
+    let mut rep = match catch(run_all) {
+        Ok(r) => r,
+        Err(msg) => {
+            let mut r = Report::new(&prop2);
+            r.rule = "run aborted by a panic".into();
+            r.violation(Violation {
+                kind: Kind::ModelMismatch,
+                key: format!("{}/panic-escaped", prop2),
+                what: format!("a panic escaped the check: {}", msg),
+                correspondence: format!("corr.{} (the run could not be completed)", prop2),
+                case: J::obj(vec![("text", J::s("-"))]),
+                implementation: msg,
+                expected: "no panic".into(),
+            });
+            r
         }
     };
     rep.extra.push(("harness_wall_s".into(), J::F(t0.elapsed().as_secs_f64())));
